@@ -63,6 +63,33 @@ def survives(acc, case, key, scorer, cuts, what):
     return True
 
 
+def after_error(acc, case, key, scorer, bad, good, before, what):
+    """Exception safety: an evaluate call that raises the documented error (a cut whose slice / pooled surroundings have
+    no positive definite covariance) must leave the scorer as it was -- the good cuts evaluate to the same values after."""
+    if not bad or not good:
+        return True
+    for b in (bad[0], bad[-1]):
+        try:
+            scorer.evaluate(np.array([good[0], b, good[-1]]))
+            acc.count("nonpd_cut_did_not_raise_in_batch")
+        except RuntimeError:
+            acc.count("documented_errors_provoked")
+        except Exception as e:
+            acc.violation("score-raised", dict(case, scorer=what, cut=list(b)), f"{what}: {type(e).__name__}: {e} on a cut with a non-positive-definite part", dict(key, exc=type(e).__name__))
+            return False
+        try:
+            again = scorer.evaluate(np.array(good))
+        except Exception as e:
+            acc.violation("state-changed-by-failed-call", dict(case, scorer=what, failed_cut=list(b)),
+                          f"{what}: after an evaluate call that raised on cut {list(b)}, evaluating valid cuts raises {type(e).__name__}: {e}", key)
+            return False
+        if again.shape != before.shape or not np.allclose(again, before, rtol=1e-12, atol=1e-12):
+            acc.violation("state-changed-by-failed-call", dict(case, scorer=what, failed_cut=list(b)),
+                          f"{what}: after an evaluate call that raised on cut {list(b)}, valid cuts evaluate differently", key)
+            return False
+    return True
+
+
 def cuts3(n, ms):
     return [(s, k, e) for s in range(n) for k in range(s + ms, n) for e in range(k + ms, n + 1)]
 
@@ -220,6 +247,8 @@ def one_variant(acc, case, key, V, Xf, rows, n, p):
         acc.count("cuts3", len(c3))
         if not survives(acc, case, key, cs, c3, f"ChangeScore({V.name})"):
             return tab
+        if not after_error(acc, case, key, cs, [c for c in cuts3(n, ms) if c not in set(c3)], c3, out, f"ChangeScore({V.name})"):
+            return tab
     # ---- saving ---------------------------------------------------------------------
     if not V.optimal:
         sv = Saving(V.make()).fit(Xf)
@@ -292,6 +321,8 @@ def one_variant(acc, case, key, V, Xf, rows, n, p):
                     return tab
             acc.count("cuts4", len(good))
             if not survives(acc, case, key, ls, good, f"LocalAnomalyScore({V.name})"):
+                return tab
+            if not after_error(acc, case, key, ls, [c for c in c4 if c not in set(good)], good, out, f"LocalAnomalyScore({V.name})"):
                 return tab
     return tab
 
